@@ -128,9 +128,10 @@ func (r *Report) Finish(p *Program, verifDir string, controlsExpected map[string
 	}
 	sort.Strings(rules)
 	for _, rule := range rules {
-		if r.counts[rule] < r.floors[rule] {
+		if n := r.counts[rule]; n < r.floors[rule] {
 			r.Fail(rule, "floor:"+rule, "-", "anchor-lost",
-				fmt.Sprintf("rule matched %d instance(s), fewer than the %d confirmed by reading: an anchor was lost or renamed", r.counts[rule], r.floors[rule]))
+				fmt.Sprintf("rule matched %d instance(s), fewer than the %d confirmed by reading: an anchor was lost or renamed", n, r.floors[rule]))
+			r.counts[rule] = n
 		}
 	}
 	// controls: for each rule with a control, the bad construct must fail and the good one pass
